@@ -224,6 +224,9 @@ type c03Case struct {
 	// runs first and the measured instruction follows it WITHOUT re-seeding (its registers are whatever the
 	// predecessor left), so a decode or sequencer state that survives an instruction shows in the access cycles
 	Pre int `json:"pre,omitempty"`
+	// KeyAt: n > 0 = a key event reaches the CPU (CPU.OnInput, the display's key callback) after machine cycle n of
+	// the instruction; outside STOP a key event has no effect on the CPU, so the access cycles are unchanged
+	KeyAt int `json:"key_at,omitempty"`
 }
 
 // markerBus: data reads at the listed addresses return a fixed value; everything else from the real pre-state.
@@ -393,6 +396,9 @@ func c03Check(l *explore.Local, e *cpuEnv, c c03Case) *explore.Fail {
 			e.poke(rd.Addr, v)
 		}
 		e.m.CPU.ExecuteMachineCycle()
+		if c.KeyAt == n {
+			e.m.CPU.OnInput()
+		}
 		for i, w := range expWrites {
 			if seen[i] == 0 && e.m.Map.Read(w.Addr) == w.Val {
 				seen[i] = n
@@ -602,6 +608,23 @@ func init() {
 						for _, fl := range allFlags {
 							if !yield(c03Case{Op: op, Ptr: p, Flags: fl}) {
 								return
+							}
+						}
+					}
+				}
+			}, newCPUEnv, c03Check)
+		explore.Product(c.R, "access-cycles-with-a-key-event", explore.PartOpt{Bound: "single instruction, a key event delivered to the CPU after cycle 1..5 of it, every machine cycle observed", Domain: "every memory-accessing opcode x 2 pointer placements x flags {00,F0}"},
+			func(yield func(c03Case) bool) {
+				for op := 0; op < 512; op++ {
+					if op < 256 && (ref.UndefinedOpcodes[uint8(op)] || op == 0xcb) {
+						continue
+					}
+					for _, p := range []uint16{0xc100, 0xff80} {
+						for _, fl := range []uint8{0x00, 0xf0} {
+							for k := 1; k <= 5; k++ {
+								if !yield(c03Case{Op: op, Ptr: p, Flags: fl, KeyAt: k}) {
+									return
+								}
 							}
 						}
 					}
